@@ -1,5 +1,6 @@
 """C03 — with linear gap costs alignment is exact: optimal score, Levenshtein distance, self-distance 0."""
 import itertools
+import os
 
 import common
 import alignlib as al
@@ -126,24 +127,110 @@ def self_distance(chk):
                   branch='self-distance/%s/%s' % (mname, mode))
         if not abs(d) <= 1e-9:
             fails.append((w, mname, mode, 'distance of a word to itself is %r' % d))
-    chk.tested_not_proved.append('self-distance 0 for all shipped models/modes is tested on generated IPA words (tolerance 1e-9), not proved')
+    chk.tested_not_proved.append('self-distance 0 on doubles (tolerance 1e-9) and in local / dialign mode: tested on generated IPA words; in exact arithmetic, global and overlap mode, it is the theorem C03_self_distance with the hypothesis DiagDom discharged for every shipped matrix by the generated module')
     chk.obligation('oracle:self-distance (shipped models x 4 modes)', 'correspondence', not fails, 'words=%d failures=%d' % (n, len(fails)))
     for f in fails[:2]:
         chk.violation('Pairwise(%r,%r) model=%s mode=%s: %s' % (f[0], f[0], f[1], f[2], f[3]),
                       {'kind': 'self-distance', 'word': f[0], 'model': f[1], 'mode': f[2], 'why': f[3]})
+    return fails
+
+
+GEN_SCORERS = os.path.join(common.LEAN, 'Verif', 'Generated', 'Scorers.lean')
+
+
+def translate_scorers(chk):
+    """translator: the shipped scoring matrices (src/lingpy/data/models/<model>/matrix, read here as text, not through the library) ->
+    Verif/Generated/Scorers.lean: per model the table of scores times a common denominator, with `diagDomTable` evaluated by `decide`
+    and `DiagDom (scorerOf table D)` - the hypothesis of C03_self_distance - derived from it.  Rewritten on every run."""
+    from fractions import Fraction
+    from math import lcm
+    base = os.path.join(common.REPO, 'src', 'lingpy', 'data', 'models')
+    tables = {}
+    for model in sorted(os.listdir(base)):
+        p = os.path.join(base, model, 'matrix')
+        if not os.path.isfile(p):
+            continue
+        rows, syms = [], []
+        for line in open(p, encoding='utf-8-sig').read().split('\n'):
+            cells = line.rstrip('\r').split('\t')
+            if len(cells) > 1:
+                syms.append(cells[0])
+                rows.append([Fraction(x) for x in cells[1:] if x.strip() != ''])
+        if not rows or any(len(r) != len(rows) for r in rows):
+            chk.hist['scorer matrix of %s is not square: skipped' % model] += 1
+            continue
+        # the classes a sequence can hold: those the converter file of the model emits, and the marker '0' of an unknown sound
+        # (symbols like '!' or '+' that no sound is mapped to may have any scores)
+        emitted = {'0'}
+        pc = os.path.join(base, model, 'converter')
+        if os.path.isfile(pc):
+            import unicodedata
+            for line in unicodedata.normalize('NFC', open(pc, encoding='utf-8-sig').read()).split('\n'):
+                if ' : ' in line:
+                    emitted.add(line.split(' : ', 1)[0])
+        keep = [i for i, c in enumerate(syms) if c in emitted]
+        rows = [[rows[i][j] for j in keep] for i in keep]
+        if not rows:
+            continue
+        D = 1
+        for r in rows:
+            for v in r:
+                D = lcm(D, v.denominator)
+        tables[model] = (D, [[int(v * D) for v in r] for r in rows])
+    lines = ['-- GENERATED by harness/props/c03.py from the matrix files under src/lingpy/data/models of the checked repository. Do not edit.',
+             'import Verif.Props.C03Self', 'namespace Verif.Generated.Scorers', 'open Verif.Align', '']
+    for m in sorted(tables):
+        D, t = tables[m]
+        name = 'm_' + ''.join(c if c.isalnum() else '_' for c in m)
+        off = max(0, -min(v for r in t for v in r))
+        lines.append('/-- scores of the model `%s` times %d, plus %d (natural numbers elaborate fast) -/' % (m, D, off))
+        lines.append('def %s_nat : List (List Nat) := [' % name)
+        lines.append(',\n'.join('  [' + ', '.join(str(v + off) for v in r) + ']' for r in t))
+        lines.append(']')
+        lines.append('/-- scores of the model `%s` times %d -/' % (m, D))
+        lines.append('def %s : List (List Int) := %s_nat.map fun r => r.map fun v => (v : Int) - %d' % (name, name, off))
+        lines.append('theorem %s_table : diagDomTable %s = true := by decide +kernel' % (name, name))
+        lines.append('theorem %s_dom : DiagDom (scorerOf %s %d) := diagDom_of_table _ _ (by decide) %s_table' % (name, name, D, name))
+        lines.append('')
+    lines += ['end Verif.Generated.Scorers', '']
+    src = '\n'.join(lines)
+    with common.LakeLock():
+        old = open(GEN_SCORERS, encoding='utf8').read() if os.path.exists(GEN_SCORERS) else ''
+        if old != src:
+            os.makedirs(os.path.dirname(GEN_SCORERS), exist_ok=True)
+            open(GEN_SCORERS, 'w', encoding='utf8').write(src)
+        rc_, out_ = common.sh(['lake', 'build', 'Verif.Generated.Scorers'], cwd=common.LEAN, timeout=1500)
+    bad = []
+    for m, (D, t) in tables.items():
+        for x in range(len(t)):
+            if t[x][x] < 0:
+                bad.append((m, x, x, t[x][x]))
+            for y in range(len(t)):
+                if 2 * t[x][y] > t[x][x] + t[y][y]:
+                    bad.append((m, x, y, t[x][y]))
+    chk.extra['models_in_generated_scorer_tables'] = {m: len(t) for m, (D, t) in tables.items()}
+    chk.obligation('generated:DiagDom (decide over Verif/Generated/Scorers.lean: %d shipped scoring matrices read from the data files, restricted to the classes the converter files emit, are diagonally '
+                   'dominant - the hypothesis of C03_self_distance)' % len(tables), 'generated-obligation', rc_ == 0 and not bad,
+                   (str(bad[:3]) or out_[-300:]) if (rc_ or bad) else '')
+    return rc_ == 0 and not bad, bad
 
 
 def run(chk):
     chk.rule = ('scale = 1 streams through the 10 non-dialign kernels (exact + float scorers, position-specific weights, '
                 'prosody), brute force over all alignments for M,N <= 4; edit distance: exhaustive over {a,b,c}^<=3/4 pairs + random; '
                 'self-distance: generated IPA words x shipped models x modes; non-trivial = alignment with gap and match / a != b / word longer than 2')
+    ok_dom, bad_dom = translate_scorers(chk)
     chk.lean_obligations()
     ac.kernel_correspondence(chk, want='opt')
     # the entry points the statement names (nw_align, sw_align, pw_align, align_pair ... with scale = 1): the score they return is
     # the score of the kernel they route to, which is the one tied to the model above
     ac.dispatcher_checks(chk, want='opt')
     edit_checks(chk)
-    self_distance(chk)
+    self_fails = self_distance(chk)
+    if not ok_dom and not self_fails:
+        chk.violation('the generated obligation DiagDom over the shipped scoring matrices no longer checks (hypothesis of C03_self_distance); '
+                      'no word with a non-zero self-distance was found', {'kind': 'generated', 'broken': 'generated:DiagDom', 'entries (model, row, column, score x D)': bad_dom[:5]},
+                      found_input=False)
 
 
 def replay(chk, path):
